@@ -252,3 +252,31 @@ Example c09_code_rtnext_runs_agree :
   code_run run_ex4 = model_run run_ex4 /\ model_run run_ex4 = ([(1, 8)], Some (-2)) /\
   code_run run_ex5 = ([], Some (-22)) /\ code_run run_ex6 = ([], Some (-22)) /\ code_run run_ex7 = ([], Some (-22)).
 Proof. vm_compute. repeat split. Qed.
+
+(* ---------------- c09_code_rtnext_field_pass: its hypotheses are satisfiable ---------------- *)
+From Coq Require Import Bool Lia.
+From LW Require Import Base.Sweep Base.CGoto Gen.Rtap Proofs.CodeRadiotapGen Proofs.SitesRadiotapIter Proofs.CodeRadiotapNextHit.
+Local Open Scope Z_scope.
+(* the hypotheses of c09_code_rtnext_field_pass hold in a concrete state: the memory of the in-kernel runs (header run_ex2, radiotap_ns
+   at 8192, its table at 12288), the iterator in front of field 3 (CHANNEL, alignment 2) at the odd offset 17 *)
+Definition ex_field_env : env :=
+  env_of [("iterator->_arg_index", 3); ("iterator->_bitmap_shifter", 0x80805); ("iterator->_arg", HDR + 17);
+          ("iterator->_rtheader", HDR); ("iterator->_max_length", 32); ("iterator->current_namespace", NS);
+          ("iterator->_next_ns_data", 0)].
+Example c09_code_rtnext_field_pass_hypotheses :
+  let m := mem_for run_ex2 in let rho := ex_field_env in
+  rho "iterator->_arg_index" = 3 /\ rho "iterator->_bitmap_shifter" = 0x80805 /\ rho "iterator->_arg" = HDR + 17 /\
+  rho "iterator->_rtheader" = HDR /\ rho "iterator->_max_length" = 32 /\ rho "iterator->current_namespace" = NS /\
+  0 <= 3 < rtap_n_bits /\ Z.odd 0x80805 = true /\ HDR + 17 + 32 < 2 ^ 62 /\ 0 < NS < 2 ^ 62 /\
+  load_le m (NS + 8) 4 = Some rtap_n_bits /\ load_le m NS 8 = Some TB /\
+  table_at m TB (fun k => fst (table_entry k)) (fun k => snd (table_entry k)) /\
+  table_entry 3 = (2, 4) /\ aligned 17 2 = 18 /\ (32 <? 18 + 4) = false.
+Proof.
+  cbv zeta. repeat split; try reflexivity; try (vm_compute; reflexivity); try lia.
+  intros k Hk.
+  assert (H : forallb (fun k => match mem_for run_ex2 (TB + k) with
+                                | Some v => v =? fst (table_entry k) + 16 * snd (table_entry k) | None => false end)
+                      (zrange 0 23) = true) by (vm_compute; reflexivity).
+  pose proof (forallb_zrange _ 0 23 H k Hk) as B. cbv beta in B.
+  destruct (mem_for run_ex2 (TB + k)) as [v | ]; [ | discriminate]. apply Z.eqb_eq in B. rewrite B. reflexivity.
+Qed.
